@@ -117,9 +117,41 @@ class Program:
                 segs = f.name.split('::')
                 if len(segs) >= 2:
                     self.provided.setdefault(segs[-2] + '::' + last, []).append(f.name)
+        seen_lines = set()
         for (cr, span), fl in spans.items():
             info = self._impl_info(cr, span, fl)
             if info:
+                self.impls.append(info)
+                seen_lines.add((info.src, span[1]))
+        # impls without any method body (e.g. `impl Behavior for X { type KeyBehavior = Y; }`) never show up in the dump:
+        # read their headers from the sources so that provided trait methods can be dispatched on them
+        cdir = self.crates.get(crate)
+        for path in [p for p in list(self.src.files) if cdir and p.startswith(cdir)]:
+            raw, lines = self.src.read(path)
+            rel = os.path.relpath(path, os.path.join(cdir, 'src'))[:-3].split(os.sep)
+            if rel[-1] in ('mod', 'lib', 'main'):
+                rel = rel[:-1]
+            module = '::'.join([crate] + rel)
+            for k, ln in enumerate(lines):
+                if not re.match(r'^(?:unsafe )?impl\b', ln) or (path, k + 1) in seen_lines:
+                    continue
+                hdr = ''
+                j = k
+                while j < len(lines) and '{' not in lines[j]:
+                    hdr += ' ' + lines[j].strip()
+                    j += 1
+                if j < len(lines):
+                    hdr += ' ' + lines[j].split('{')[0].strip()
+                ph = parse_impl_header(hdr.strip())
+                if not ph or ph[1] is None or '$' in hdr:
+                    continue
+                gens, tr, self_ = ph
+                info = ImplInfo()
+                info.crate, info.span, info.text, info.src = crate, (path, k + 1, 1, k + 1, 1), hdr.strip(), path
+                info.module, info.methods, info.kind, info.gens = module, {}, 'impl', gens
+                trt = ty_parse(tr)
+                info.trait, info.trait_args = trt[1], [self._qualify(a, module, set(gens)) for a in trt[2]]
+                info.self_ty = self._qualify(ty_parse(self_), module, set(gens))
                 self.impls.append(info)
 
     def _impl_info(self, crate, span, fl):
@@ -212,12 +244,30 @@ class Program:
                 raw, lines = self.src.read(full)
                 cands = [(full, f.span[1] - 1)]
         else:
-            # free function / provided trait method: search the crate's sources for `fn meth`
+            # free function / provided trait method: the module path names the file; a provided method sits inside `trait Name`
             cdir = self.crates.get(f.crate)
             mods = fname.split('::')[1:-1]
-            for p in list(self.src.files):
-                if cdir and p.startswith(cdir):
-                    cands.append((p, 0))
+            trait = None
+            if mods and mods[-1][:1].isupper():
+                trait, mods = mods[-1], mods[:-1]
+            files = []
+            if cdir:
+                base = os.path.join(cdir, 'src', *mods)
+                files = [base + '.rs', os.path.join(base, 'mod.rs')] if mods else [os.path.join(cdir, 'src', 'lib.rs')]
+            for p in files:
+                if os.path.exists(p):
+                    raw, lines = self.src.read(p)
+                    start = 0
+                    if trait:
+                        for k, ln in enumerate(lines):
+                            if re.search(r'\btrait\s+' + re.escape(trait) + r'\b', ln):
+                                start = k
+                                break
+                    cands.append((p, start))
+            if not cands:
+                for p in list(self.src.files):
+                    if cdir and p.startswith(cdir):
+                        cands.append((p, 0))
         best = None
         for full, start in cands:
             raw, lines = self.src.read(full)
@@ -1088,6 +1138,30 @@ class Interp:
         name, tenv = tgt
         yield from self.invoke(name, args, st, tenv, fr.depth + 1)
 
+    def call_trait(self, fr, self_ty, trait, method, gargs, args, st, targs=()):
+        """trait-method call on behalf of a model: <self_ty as trait<targs>>::method::<gargs>(args) with type *trees*"""
+        tr = ('path', trait, tuple(targs))
+        c = Callee()
+        c.text = c.key = f'<{ty_str(self_ty)} as {trait}>::{method}'
+        c.kind, c.self_ty, c.trait, c.method, c.gargs, c.segs = 'trait', self_ty, tr, method, tuple(gargs), ()
+        ctx = CallCtx(self, fr, c, None)
+        fr0 = Frame()
+        fr0.fn, fr0.locals, fr0.tenv, fr0.visits, fr0.depth = fr.fn, fr.locals, {}, {}, fr.depth
+        ctx = CallCtx(self, fr0, c, None)
+        for pat, fn, guard in self.models:
+            if pat.fullmatch(c.key) and (guard is None or guard(self, ctx, args, st)):
+                self.used_models.add(pat.pattern)
+                yield from fn(self, ctx, args, st)
+                return
+        tgt = self.dispatch_target(self_ty, tr, method, list(gargs), args, st, ctx)
+        if tgt is None:
+            raise Unsupported(f'no impl / model for {c.key}  (called by a model on behalf of {fr.fn.name}; tenv={ {k: ty_str(v) if isinstance(v, tuple) else v for k, v in fr.tenv.items()} })')
+        if callable(tgt):
+            yield from tgt(self, ctx, args, st)
+            return
+        name, tenv = tgt
+        yield from self.invoke(name, args, st, tenv, fr.depth + 1)
+
     def invoke(self, name, args, st, tenv, depth=0):
         if not any(m.search(name) for m in self.merge):
             yield from self.run(name, args, st, tenv, depth)
@@ -1410,9 +1484,12 @@ class Interp:
         for g in re.findall(r'\b([A-Z]\w{0,2})\b', sig):
             if g not in allg and g != 'Self':
                 allg.append(g)
-        tparams = [g for g in allg if g not in names]
+        tparams = [g for g in allg if g not in names][:len(targs)]
         for g, a in zip(tparams, targs):
             b[g] = a
+        if not names and gargs:
+            # macro-generated provided method (`fn $method<V>`): its generics are the remaining names of the MIR signature
+            names = [g for g in allg if g not in tparams]
         for g, a in zip(names, gargs):
             b[g] = a
         return b
